@@ -47,6 +47,14 @@ CLAIMED = {
         design="DESIGN.md section 2, C06",
         technique="symbolic execution with havoc/Givens kernel stubs; identity validity queries (z3) + rounding-model query on sqrt arguments",
     ),
+    "C08": dict(
+        text="The real decomposition entry points (parafac, non-negative CP both variants, tucker/partial_tucker, TT-SVD, TT-matrix, TR-SVD, PARAFAC2) are executed "
+        "symbolically; the tolerance is a solver variable so that the convergence-break and the iteration-cap exits are both explored, and on every feasible path the "
+        "returned object is checked for shapes/ranks/boundary ranks, unit-norm columns (or weights == 1), orthonormal HOOI factors with core == X x^T U, left-orthogonal "
+        "TT cores, orthonormal PARAFAC2 projections with a shared cross-product. Orthonormality-dependent claims are relative to Givens-generated SVD outputs.",
+        design="DESIGN.md section 2, C08",
+        technique="path-forking symbolic execution with a symbolic tolerance; identity validity queries after denominator clearing (z3)",
+    ),
     "C12": dict(
         text="Every branch of each proximal/projection operator is executed symbolically (sorts and comparisons fork the path, clips merge into If-terms) on vectors "
         "and n x 2 matrices of solver variables with a symbolic positive parameter; the returned point is checked against the KKT / nearest-point "
